@@ -165,9 +165,81 @@ def _closure_functions(ctx) -> list[Inst]:
     return insts
 
 
+def _build_order(ctx) -> list[Inst]:
+    """BUILDORDER  while LanguageGraph._generate_graph is filling `<asset>.attack_steps` (one pass over self.assets),
+    nothing in that pass reads the attack_steps of ANOTHER asset: declarations may come in any order (a sub-type
+    before its super-type), so such a read sees whatever happens to be built already.  Likewise a single element
+    of super_assets / sub_assets (`x.super_assets[0]`) is never a substitute for the closure."""
+    prog = ctx.prog
+    insts = []
+    props = ('C03', 'C15', 'C01')
+    # (1) indexed access into the link lists, anywhere
+    for f in prog.all_funcs():
+        rel = f.module.relpath
+        for n in own_nodes(f.node):
+            if isinstance(n, ast.Subscript) and isinstance(n.value, ast.Attribute) and n.value.attr in CLOSURE_FIELDS \
+                    and not isinstance(n.slice, ast.Slice):
+                insts.append(Inst(
+                    RULE, f.short, f'BUILDORDER: {stmt_text(n, 50)} takes one element of the inheritance links', 'violation',
+                    msg=(f"'{stmt_text(n, 60)}' stands for the whole inheritance relation: indirect ancestors / further "
+                         f"parents are ignored, and what the element itself has been given so far depends on the order "
+                         f"in which the assets are processed"),
+                    file=rel, line=n.lineno, props=tuple(dict.fromkeys(props + tuple(props_for(f.short, rel))))))
+    # (2) the filling pass
+    f = prog.func('LanguageGraph._generate_graph')
+    cfg = ctx.cfg(f)
+    rel = f.module.relpath
+    fills = []
+    for n in own_nodes(f.node):
+        if isinstance(n, ast.Call) and isinstance(n.func, ast.Attribute) and n.func.attr == 'append' \
+                and isinstance(n.func.value, ast.Attribute) and n.func.value.attr == 'attack_steps' \
+                and isinstance(n.func.value.value, ast.Name) and n.func.value.value.id != f.self_name:
+            fills.append(n)
+    construct = 'BUILDORDER: the pass that fills asset.attack_steps reads no other asset\'s attack_steps'
+    if not fills:
+        insts.append(Inst(RULE, f.short, construct, 'unproven', msg='filling pass not recognised', file=rel,
+                          line=f.node.lineno, props=props))
+        return insts
+    bad = None
+    for fill in fills:
+        node = cfg.owner(fill)
+        outer = node.loop
+        while outer is not None and outer.loop is not None:
+            outer = outer.loop
+        if outer is None:
+            continue
+        owner_name = fill.func.value.value.id
+        for x in cfg.nodes:
+            l = x.loop
+            inside = x is outer
+            while l is not None and not inside:
+                inside = l is outer
+                l = l.loop
+            if not inside:
+                continue
+            roots = [x.ast.test] if x.kind in ('if', 'while') else ([x.ast.iter] if x.kind == 'for' else (
+                [x.ast] if x.kind == 'stmt' else []))
+            for r in roots:
+                for a in ast.walk(r):
+                    if isinstance(a, ast.Attribute) and a.attr == 'attack_steps' and isinstance(a.ctx, ast.Load) \
+                            and not (isinstance(a.value, ast.Name) and a.value.id in (owner_name, f.self_name)):
+                        bad = a
+    if bad is not None:
+        insts.append(Inst(
+            RULE, f.short, construct, 'violation',
+            msg=(f"'{stmt_text(bad, 60)}' is read inside the pass that is still creating the attack steps of the "
+                 f"assets: for an asset processed before the one it reads from (a sub-type declared before its "
+                 f"super-type) the list is still empty, the result depends on the declaration order"),
+            file=rel, line=bad.lineno, props=props))
+    else:
+        insts.append(Inst(RULE, f.short, construct, 'ok', file=rel, line=fills[0].lineno, props=props))
+    return insts
+
+
 def run(ctx) -> list[Inst]:
     prog = ctx.prog
     insts = _closure_functions(ctx)
+    insts += _build_order(ctx)
     # ---------------------------------------------------------------- CLOSURE
     nreads = 0
     for f in prog.all_funcs():
@@ -216,16 +288,16 @@ def run(ctx) -> list[Inst]:
             foreign = [p for p in bad if p.root[0] == 'param']
             if not bad and paths:
                 insts.append(Inst(RULE, fname, construct, 'ok', msg=', '.join(repr(p) for p in paths), file=rel,
-                                  line=n.lineno, props=('C11', 'C09')))
+                                  line=n.lineno, props=('C11', 'C09', 'C16')))
             elif foreign:
                 insts.append(Inst(
                     RULE, fname, construct, 'violation',
                     msg=(f"'{stmt_text(what)}' may be {foreign[0]!r}, which is not one of this graph's node "
                          f"containers: after a second graph was generated from the same model (or a node was "
                          f"removed) the attacker reaches nodes that are not in this graph"),
-                    file=rel, line=n.lineno, props=('C11', 'C09')))
+                    file=rel, line=n.lineno, props=('C11', 'C09', 'C16')))
             else:
                 insts.append(Inst(RULE, fname, construct, 'unproven',
                                   msg='origin: ' + ', '.join(repr(p) for p in paths), file=rel, line=n.lineno,
-                                  props=('C11', 'C09')))
+                                  props=('C11', 'C09', 'C16')))
     return insts
